@@ -25,8 +25,9 @@ import vlib
 from vlib import Reporter, ToolError, log
 
 FLAVOURS = {"sync_digraph": True, "sync_ungraph": False}
+SHARDS = 8
 TIERS = {
-    "quick": dict(nodes=2, threads=2, max_calls=1, init_edges=2, max_exec=4000),
+    "quick": dict(nodes=2, threads=2, max_calls=1, init_edges=2, max_exec=6000),
     "thorough": dict(nodes=2, threads=2, max_calls=2, init_edges=1, max_exec=20000,
                      extra=[dict(nodes=3, threads=2, max_calls=1, init_edges=2, max_exec=20000),
                             dict(nodes=2, threads=3, max_calls=1, init_edges=1, max_exec=20000)]),
@@ -82,7 +83,25 @@ def run(pid, tier, seed):
                 for k in sorted(model):
                     f.write(json.dumps({"g0": model[k]["g0"], "prog": model[k]["prog"]}) + "\n")
             of = os.path.join(d, "out_%s_f%d.ndjson" % (fl, fi))
-            rec = vlib.harness("sched", {"flavour": fl, "scenarios": sf, "outcomes": of, "max-executions": fam["max_exec"]}, timeout=10000)
+            # the hook is process-global: shard the scenarios over processes
+            keys = sorted(model)
+            nsh = min(SHARDS, max(1, len(keys)))
+            jobs = []
+            for sh in range(nsh):
+                sfi = "%s.%d" % (sf, sh)
+                with open(sfi, "w") as f:
+                    for k in keys[sh::nsh]:
+                        f.write(json.dumps({"g0": model[k]["g0"], "prog": model[k]["prog"]}) + "\n")
+                jobs.append(("sched", {"flavour": fl, "scenarios": sfi, "outcomes": "%s.%d" % (of, sh), "max-executions": fam["max_exec"]},
+                             os.path.join(d, "sched_%s_f%d_%d.json" % (fl, fi, sh))))
+            parts = vlib.harness_parallel(jobs, timeout=10000)
+            with open(of, "w") as f:
+                for sh in range(nsh):
+                    f.write(open("%s.%d" % (of, sh)).read())
+            rec = {"flavour": fl, "scenarios": sum(x["scenarios"] for x in parts), "executions": sum(x["executions"] for x in parts),
+                   "lock_points": sum(x["lock_points"] for x in parts), "scenarios_truncated": sum(x["scenarios_truncated"] for x in parts),
+                   "max_schedules_in_one_scenario": max(x["max_schedules_in_one_scenario"] for x in parts), "writer_preference": True,
+                   "processes": nsh}
             recs.append(rec)
             if rec["lock_points"] == 0:
                 raise ToolError("the lock-point hook saw no acquisition: scheduler not bound to the code")
